@@ -23,6 +23,14 @@
      14 <C02 case>                      NoiseSocket writer -> tampered wire -> reader (coq/C02 model and oracle)
      15 <C04 case>                      Substream codecs incl. Identity(n), raw adversarial wire, re-polling (coq/C04)
      16 <C03 case>                      stream-based listener/dialer futures against scripted bytes (coq/C03)
+     22 role 0 (L stream) ORC           Noise `handshake()` (role 0 dialer / 1 listener) fed raw bytes
+     22 role 1 (L payload) decl ORC     ... against a correct Noise peer whose identity message carries `payload`
+                                        and is announced with length decl-1 (0 = the true length)
+     23 mode chunk cut (L stream) ORC   WebSocket adapter (BufferedStream over tungstenite): mode 0 server role,
+                                        2 client role, 1 after accept_async (remote sends stream[..cut] first),
+                                        3 after client_async_tls (stream = the remote's response, 28-byte accept-key marker)
+     24 (L user) (L (L addr)) (L datagram) ORC   one mDNS datagram handed to Mdns
+     25 (L reply)                       WebRTC Noise path: with_prologue, first_message, get_remote_peer_id(reply) (feature worker)
      20 sub ..                          round trips through the library's own encoders (see rt_case)
    Traces:  status alloc cap body..
      status 1 = the call returned; alloc = the allocation bound when the measured peak is within
@@ -34,7 +42,7 @@ From V.gen Require Consts.
 From V.common Require Import Wire Varint Protobuf.
 From V.C18 Require Model.
 From V.C03 Require Model.
-From V.C19 Require Import Formats Model.
+From V.C19 Require Import Formats Model Net.
 From V.C19 Require E02 E03 E04.
 Import ListNotations.
 Open Scope N_scope.
@@ -153,7 +161,9 @@ Inductive rt_case :=
 | RtBitswap (m : bs_msg)              (* sub 23 *)
 | RtNoise (m : noise_payload)         (* sub 24 *)
 | RtPrefix (p : prefix)               (* sub 25 *)
-| RtFrames (max : N) (fs : list bytes). (* sub 26: send side framing, then receive *)
+| RtFrames (max : N) (fs : list bytes)  (* sub 26: send side framing, then receive *)
+| RtWs (client_writes : bool) (chunks : list bytes)   (* sub 27: WebSocket adapter writes, the other role reads *)
+| RtMdns (ua ub : bytes) (listen : list bytes).        (* sub 28: mDNS reply of A read by B *)
 
 Definition p_obytes : parser (option bytes) :=
   let* h := pN in if h =? 0 then pret None else let* b := pL in pret (Some b).
@@ -203,6 +213,8 @@ Definition p_rt : parser rt_case :=
   else if sub =? 25 then
     let* v := pN in let* c := pN in let* t := pN in let* l := pN in pret (RtPrefix (mkPrefix v c t l))
   else if sub =? 26 then let* max := pN in let* fs := plist pL in pret (RtFrames max fs)
+  else if sub =? 27 then let* c := pBool in let* cs := plist pL in pret (RtWs c cs)
+  else if sub =? 28 then let* a := pL in let* b := pL in let* l := plist pL in pret (RtMdns a b l)
   else pfail.
 
 (* all addresses of a round-trip Kademlia message are valid multiaddresses: the oracle the
@@ -229,6 +241,11 @@ Inductive case :=
 | CWebListen (hdr : bool) (names : list bytes) (payload : bytes)
 | CWebDial (proto : bytes) (ops : list bytes)
 | CEmbed (kind : N) (raw : list N)
+| CNoiseRaw (role : N) (s : bytes) (o : oracle)
+| CNoiseActive (role : N) (p : bytes) (decl : N) (o : oracle)
+| CWs (mode chunk cut : N) (s : bytes) (o : oracle)
+| CMdns (user : bytes) (listen : list bytes) (d : bytes) (o : oracle)
+| CWebNoise (b : bytes)
 | CRt (r : rt_case).
 
 Definition p_case : parser case :=
@@ -253,6 +270,20 @@ Definition p_case : parser case :=
   else if kind =? 13 then let* p := pL in let* ops := plist pL in pret (CWebDial p ops)
   else if (14 <=? kind) && (kind <=? 16) then (fun l => Some (CEmbed kind l, []))
   else if kind =? 20 then let* r := p_rt in pret (CRt r)
+  else if kind =? 22 then
+    let* role := pN in let* mode := pN in
+    if 1 <? role then pfail
+    else if mode =? 0 then let* s := pL in let* o := p_orc in pret (CNoiseRaw role s o)
+    else if mode =? 1 then let* p := pL in let* d := pN in let* o := p_orc in
+                           if 65536 <? d then pfail else pret (CNoiseActive role p d o)
+    else pfail
+  else if kind =? 23 then
+    let* mode := pN in let* chunk := pN in let* cut := pN in let* s := pL in let* o := p_orc in
+    if (3 <? mode) || (chunk =? 0) || (1048576 <? chunk) || (negb (mode =? 1) && negb (mode =? 3) && negb (cut =? 0)) || (blen s <? cut)
+    then pfail else pret (CWs mode chunk cut s o)
+  else if kind =? 24 then
+    let* u := pL in let* l := plist pL in let* d := pL in let* o := p_orc in pret (CMdns u l d o)
+  else if kind =? 25 then let* b := pL in pret (CWebNoise b)
   else pfail.
 
 Definition rt_bytes_ok (r : rt_case) : bool :=
@@ -265,6 +296,9 @@ Definition rt_bytes_ok (r : rt_case) : bool :=
   | RtNoise m => bytes_ok (enc_noise m)
   | RtPrefix _ => true
   | RtFrames max fs => forallb bytes_ok fs && forallb (fun f => blen f <=? max) fs
+  | RtWs _ cs => forallb bytes_ok cs && forallb (fun c => negb (is_nil c) && (blen c <=? 70000)) cs
+  | RtMdns a b l => mdns_user_ok a && mdns_user_ok b && negb (nlist_eqb a b) && forallb bytes_ok l &&
+                    forallb maddr_valid_m l && forallb (fun x => blen x <=? 60) l
   end.
 
 Definition input_of (c : case) : bytes :=
@@ -273,6 +307,7 @@ Definition input_of (c : case) : bytes :=
   | CBitswap b _ | CPrefix b | CPeerId b | CMaddr b _ | CCid b | COpaque _ b | CWebRtc b => b
   | CWebListen _ _ b => b
   | CWebDial _ ops => concat ops
+  | CNoiseRaw _ b _ | CNoiseActive _ b _ _ | CWs _ _ _ b _ | CMdns _ _ b _ | CWebNoise b => b
   | CEmbed _ _ => []
   | CRt _ => []
   end.
@@ -287,6 +322,9 @@ Definition well_formed (c : case) : bool :=
   | CWebListen _ ns b => forallb ascii_name ns && bytes_ok b
   | CEmbed _ _ => true
   | CWebDial p ops => ascii_name p && V.C03.Model.starts_slash p && forallb bytes_ok ops
+  | CNoiseActive _ p _ _ => bytes_ok p && (blen p <=? 65000)
+  | CMdns u l d _ => mdns_user_ok u && forallb bytes_ok l && forallb maddr_valid_m l &&
+                     forallb (fun x => blen x <=? 60) l && bytes_ok d
   | _ => bytes_ok (input_of c)
   end.
 
@@ -323,6 +361,7 @@ Definition run_kad (k : nat) (b : bytes) (o : oracle) : list N :=
   | None => hdrk k (blen b) 0 (raw ++ [0])
   end.
 
+Definition RT_MDNS_BOUND : N := alloc_bound 4096 + 65536.
 Definition run_rt (r : rt_case) : list N :=
   match r with
   | RtKad m k =>
@@ -361,6 +400,11 @@ Definition run_rt (r : rt_case) : list N :=
       let s := frames_of fs in
       let r := recv_all (Some max) s in
       1 :: recv_alloc_bound max (blen s) :: max_len (rv_frames r) :: eL s ++ dump_recv r
+  | RtWs cw cs =>
+      (* a client masks with a random key; what is read back does not depend on it (C19_ws_roundtrip) *)
+      let wire := concat (map (ws_frame (if cw then Some [0; 0; 0; 0] else None)) cs) in
+      1 :: ws_bound (blen wire) :: 0 :: eL (ws_run (if cw then WsServer else WsClient) wire) ++ [1]
+  | RtMdns a b l => 1 :: RT_MDNS_BOUND :: 0 :: eLL (sort_dedupe l)
   end.
 
 Definition run (c : case) : list N :=
@@ -436,6 +480,25 @@ Definition run (c : case) : list N :=
   | CEmbed k raw =>
       1 :: EMBED_BOUND :: 0 ::
       (if k =? 14 then V.C19.E02.run_c02 raw else if k =? 15 then V.C19.E04.run_c04 raw else V.C19.E03.run_c03 raw)
+  | CNoiseRaw role s _ => 1 :: NOISE_BOUND :: 0 :: [noise_raw role s]
+  | CNoiseActive role p d o => 1 :: NOISE_BOUND :: 0 :: noise_active role o p (dec_opt d)
+  | CWs mode _ cut s o =>
+      (* cap = the number of bytes delivered: never more than arrived (C19_ws_delivered_bounded) *)
+      let out := if (mode =? 1) || (mode =? 3) then
+                   match ws_accept o s with
+                   | Some rest => Some (ws_run (if mode =? 1 then WsServer else WsClient) rest)
+                   | None => None
+                   end
+                 else Some (ws_run (if mode =? 0 then WsServer else WsClient) s) in
+      match out with
+      | Some b => 1 :: ws_bound (blen s) :: blen b :: 1 :: eL b ++ [1]
+      | None => 1 :: ws_bound (blen s) :: 0 :: [0; 0; 1]
+      end
+  | CMdns u l d o =>
+      (* cap = the number of addresses reported *)
+      let body := mdns_datagram u (nlen l) o d in
+      1 :: mdns_bound d :: (match body with 1 :: n :: _ => n | _ => 0 end) :: body
+  | CWebNoise b => 1 :: NOISE_BOUND :: 0 :: [webrtc_noise_reply b]
   | CRt r => run_rt r
   end.
 
@@ -456,6 +519,8 @@ Definition cap_of (c : case) : N :=
   | CRt (RtKad _ k) => N.of_nat k
   | CRt (RtMsm _) => Consts.C03_MAX_PROTOCOLS
   | CRt (RtFrames m _) => m
+  | CWs _ _ _ s _ => blen s
+  | CMdns _ _ d _ => blen d
   | _ => 0
   end.
 Definition bound_of (c : case) : N :=
@@ -473,6 +538,12 @@ Definition bound_of (c : case) : N :=
   | CRt (RtBitswap m) => alloc_bound (blen (enc_bs_msg m))
   | CRt (RtNoise m) => alloc_bound (blen (enc_noise m))
   | CRt (RtPrefix p) => alloc_bound (blen (prefix_to_bytes p))
+  | CRt (RtWs cw cs) =>
+      ws_bound (blen (concat (map (ws_frame (if cw then Some [0; 0; 0; 0] else None)) cs)))
+  | CRt (RtMdns _ _ _) => RT_MDNS_BOUND
+  | CNoiseRaw _ _ _ | CNoiseActive _ _ _ _ | CWebNoise _ => NOISE_BOUND
+  | CWs _ _ _ s _ => ws_bound (blen s)
+  | CMdns _ _ d _ => mdns_bound d
   | _ => alloc_bound (blen (input_of c))
   end.
 
@@ -502,6 +573,8 @@ Definition rt_expect (r : rt_case) : option (list N) :=
   | RtNoise m => Some (1 :: dump_noise m)
   | RtPrefix p => Some (dump_prefix p)
   | RtFrames max fs => Some (eLL fs ++ [0])
+  | RtWs _ cs => Some (eL (concat cs) ++ [1])
+  | RtMdns _ _ l => Some (eLL (sort_dedupe l))
   end.
 
 Fixpoint ends_with (suffix l : list N) : bool :=
